@@ -131,7 +131,8 @@ def case_bytes(case) -> bytes:
     return text.encode("utf-8", errors="surrogatepass")
 
 
-def _count_items(tree) -> int:
+def _count_items(tree, nodes=False) -> int:
+    """Items with a non-empty body in OUR parse tree (nodes=True: item nodes of any shape)."""
     from zorg.grammar.zorg_file.ZorgFileParser import ZorgFileParser
 
     n = 0
@@ -140,7 +141,7 @@ def _count_items(tree) -> int:
         t = stack.pop()
         if isinstance(t, (ZorgFileParser.Base_noteContext, ZorgFileParser.Base_todoContext)):
             nb = t.note_body()
-            if nb is not None and nb.getText().strip() != "":
+            if nodes or (nb is not None and nb.getText().strip() != ""):
                 n += 1
         for c in (getattr(t, "children", None) or []):
             stack.append(c)
@@ -158,13 +159,14 @@ def check(case, rec: Rec) -> None:
     lex_errs, par_errs, tree = P.independent_parse(stream)
     E = bool(par_errs)
     n_items = _count_items(tree)
+    n_nodes = _count_items(tree, nodes=True)
     with env.sandbox("vz-c08-") as box:
         (box / "p.zo").write_bytes(data)
         with env.frozen(case["today"]):
             with rec.sut("walk_zorg_page"):
                 page = walk_zorg_page(box, Path("p.zo"), verbose=True)
                 notes = page.notes
-        if E and n_items == 0 and "noteless-broken-page" in rec.open_keys:
+        if E and n_nodes == 0 and "noteless-broken-page" in rec.open_keys:
             raise Excluded("noteless-broken-page")  # (totality was still checked above)
         if E and not page.has_errors:
             raise Violation("syntax-error-not-flagged",
